@@ -1061,17 +1061,9 @@ func runEvalMisc(c *Ctx, r *Reporter) {
 
 // floatAtLeastOne: ins is dominated by the true edge of `f >= c` (c ≥ 1) or `f > c` (c ≥ 1).
 func floatAtLeastOne(ins ssa.Instruction, f ssa.Value) bool {
-	for d := ins.Block(); d != nil; d = d.Idom() {
-		idom := d.Idom()
-		if idom == nil || len(idom.Instrs) == 0 {
-			continue
-		}
-		ifi, ok := idom.Instrs[len(idom.Instrs)-1].(*ssa.If)
-		if !ok || !edgeDominates(idom, 0, ins.Block()) {
-			continue
-		}
-		bo, ok := ifi.Cond.(*ssa.BinOp)
-		if !ok || !sameFloat(bo.X, f) {
+	for _, fact := range impliedConds(ins.Block()) {
+		bo, ok := fact.Cond.(*ssa.BinOp)
+		if !ok || !fact.Truth || !sameFloat(bo.X, f) {
 			continue
 		}
 		k, ok := bo.Y.(*ssa.Const)
